@@ -33,6 +33,9 @@ type scTx struct {
 type scCase struct {
 	N      int      `json:"n"`
 	Blocks [][]scTx `json:"blocks"`
+	// C08 only: the process stops at CrashPoint while block CrashBlock (1-based, 0 = never) is persisted and is restarted
+	CrashBlock int    `json:"crash_block,omitempty"`
+	CrashPoint string `json:"crash_point,omitempty"`
 }
 
 var scKeys = []string{"a", "b", "c", "ab", "", "\x05", "a\x00"}
@@ -397,7 +400,19 @@ func runC08(ctx *ev.Ctx, c scCase) {
 	for bi, txs := range c.Blocks {
 		r := buildScBlock(ch, state, txs, &ctr)
 		b := lworld.Roundtrip(ch.Build(r.txs, lworld.BlockOpt{}))
-		if err := ch.Commit(b); err != nil {
+		if c.CrashBlock == bi+1 {
+			// a committed block is a committed block whether it was persisted in one go or completed by crash recovery
+			held, err := ch.CrashAt(b, c.CrashPoint)
+			if err != nil {
+				ctx.Failf("block %d: stop at %s and restart: %v", bi+1, c.CrashPoint, err)
+			}
+			ctx.Label("crash:" + c.CrashPoint)
+			if held {
+				ch.NoteCommitted(b)
+			} else if err := ch.Commit(b); err != nil {
+				ctx.Failf("block %d rejected after the restart: %v", bi+1, err)
+			}
+		} else if err := ch.Commit(b); err != nil {
 			ctx.Failf("block %d rejected: %v", bi+1, err)
 		}
 		for i, m := range r.models {
@@ -499,11 +514,16 @@ func TestC08(t *testing.T) {
 		"cases: chains of 2..8 (thorough 12) committed blocks of 0..6 scripted transactions emitting 0..many cross-chain records (each stored under a unique key, like real request records) mixed with failing transactions; "+
 			"oracle: for every record of every block the served proof (Ledger.GetCrossStatesProof) verifies with merkle.MerkleProve against that block's cross-state root (and the next header's field) and yields exactly the stored record; "+
 			"blocks without records have the zero root; for ALL h < r <= tip Ledger.GetMerkleProof(h,r) verifies against header r's block root (itself compared with an RFC 6962 reference) and yields block h's hash. "+
+			"in a third of the chains one block is persisted with a process stop at a generated persistence point and completed by the restart (crash recovery), and must be served like any other block. "+
 			"non-trivial: a block with >= 3 records, or r-h >= 2; distinct by JSON of the chain",
 		func(t *rapid.T) scCase {
 			c := genSc(ev.Scale(8, 12), 6)(t)
 			if len(c.Blocks) < 2 {
 				c.Blocks = append(c.Blocks, c.Blocks[0])
+			}
+			if rapid.IntRange(0, 2).Draw(t, "crash") == 0 {
+				c.CrashBlock = rapid.IntRange(1, len(c.Blocks)).Draw(t, "crash_block")
+				c.CrashPoint = rapid.SampledFrom(c12Points).Draw(t, "crash_point")
 			}
 			return c
 		}, runC08)
